@@ -254,7 +254,7 @@ class Encoder:
         if self.py2 and self.v >= (2, 4):
             forms = ["s", "t"]
             if b in self.strtab:
-                forms.append("R")
+                forms = ["R", "s", "t"]
             f = forms[self.ch.pick(len(forms))]
             if f == "R":
                 self.features.add("py2-stringref")
